@@ -7,15 +7,16 @@
 (***************************************************************************)
 EXTENDS LangCommon, Num
 En == INSTANCE Lang_en
+Fr == INSTANCE Lang_fr
 
-Modelled == {"en"}
+Modelled == {"en", "fr"}
 
-Apply(L, w, b) == CASE L = "en" -> En!Apply(w, b)
-ApplyDecimal(L, w, b) == CASE L = "en" -> En!ApplyDecimal(w, b)
-IsDecimalSep(L, w) == CASE L = "en" -> En!IsDecimalSep(w)
-DecimalMarkOf(L) == CASE L = "en" -> En!DecimalMark
-ExecGroup(L, ws) == CASE L = "en" -> En!ExecGroup(ws)
-Annotate(L, toks) == CASE L = "en" -> En!Annotate(toks) [] OTHER -> {}
+Apply(L, w, b) == CASE L = "en" -> En!Apply(w, b) [] L = "fr" -> Fr!Apply(w, b)
+ApplyDecimal(L, w, b) == CASE L = "en" -> En!ApplyDecimal(w, b) [] L = "fr" -> Fr!ApplyDecimal(w, b)
+IsDecimalSep(L, w) == CASE L = "en" -> En!IsDecimalSep(w) [] L = "fr" -> Fr!IsDecimalSep(w)
+DecimalMarkOf(L) == CASE L = "en" -> En!DecimalMark [] L = "fr" -> Fr!DecimalMark
+ExecGroup(L, ws) == CASE L = "en" -> En!ExecGroup(ws) [] L = "fr" -> Fr!ExecGroup(ws)
+Annotate(L, toks) == CASE L = "en" -> En!Annotate(toks) [] L = "fr" -> Fr!Annotate(toks) [] OTHER -> {}
 
 \* format_and_value / format_decimal_and_value: text and value (as a decimal string with "." mark)
 Format(L, b) == LET r == Render(b) IN
